@@ -23,6 +23,7 @@ import gen_common as G
 import gen_checks as GC
 import c08
 import gen_clear2
+import gen_rename
 from common import coq_string, coq_list
 
 PID = 'C18'
@@ -218,7 +219,7 @@ def ren_kind(kind, m):
 
 def run(ctx):
     out = common.Outcome()
-    out.proof = common.proof_status_many([(FAMILY, PROPFILE)] + gen_clear2.PROOFS)
+    out.proof = common.proof_status_many([(FAMILY, PROPFILE)] + gen_clear2.PROOFS + gen_rename.PROOFS)
     n_ren = ctx.scale(30, 350)
     n_emb = ctx.scale(12, 120)
     cases, metas, seen = [], [], set()
@@ -352,6 +353,11 @@ def run(ctx):
     # Main2_market_zone_isolation, membership in iff form): the member lists the theorem names are compared with the
     # object model and zone isolation is tested on the emitted rows
     gen_clear2.extra(ctx, out, quick_n=30, thorough_n=300)
+    # first sentence of C18 for ALL programs of the pipeline models (coq/GenRename: Main_/Main2_rename_equivariant under the
+    # decidable side condition renaming_ok): the Coq renaming is compared with the renaming the harness performs, and the
+    # renamed model output with the implementation's output on the renamed program
+    gen_rename.extra(ctx, out)
+    gen_rename.finding_probes(out)      # recorded finding D18d (a code containing the word EXOGENOUS)
     return out
 
 
@@ -360,6 +366,8 @@ def replay(path):
     r = obj.get('replay') or {}
     if r.get('kind') == 'clear2':
         return gen_clear2.replay(obj)
+    if r.get('kind') == 'rename_model':
+        return gen_rename.replay(obj)
     if r.get('kind') == 'rename':
         try:
             case, p2, m, skip = rename_case(r['prog'], r['codes'])
